@@ -11,6 +11,7 @@ package main
 import (
 	"fmt"
 	"go/token"
+	"go/types"
 	"regexp"
 	"sort"
 	"strconv"
@@ -68,6 +69,11 @@ func opaqueParts(t *Term, allow map[string]bool) []string {
 				why = "dynamic call"
 			} else if !(stdPure(x.Name) || allow[x.Name] || strings.HasPrefix(x.Name, "invoke:")) {
 				why = "call " + x.Name
+			}
+		case "makemap", "makeslice", "alloc":
+			// a container filled by stores the term does not show; opaque only where the caller asks for it
+			if allow["containers-opaque"] {
+				why = "container " + x.Op + " built by stores"
 			}
 		case "typeassert":
 		}
@@ -425,7 +431,10 @@ func termDist(a, b *Term) int {
 	}
 	// one node wrapped or unwrapped (x vs x+1, f(x) vs x). A projection (field, deref, element) around a
 	// value is a change of data layout, not of the computation: that is not a local difference.
-	structural := func(t *Term) bool { return t.Op == "field" || t.Op == "deref" || t.Op == "each" || t.Op == "index" || t.Op == "extract" }
+	// A phi or anyof around a value is a join of control flow (a default merged in on another path), not an operation either.
+	structural := func(t *Term) bool {
+		return t.Op == "field" || t.Op == "deref" || t.Op == "each" || t.Op == "index" || t.Op == "extract" || t.Op == "phi" || t.Op == "anyof"
+	}
 	if !structural(a) {
 		for _, ch := range a.Args {
 			if d := 1 + termSize(a) - termSize(ch) - 1 + termDist(ch, b); d < best && termSize(a)-termSize(ch) <= 3 {
@@ -485,4 +494,78 @@ func occurs(t *Term, pred func(*Term) bool) (direct, underProjection bool) {
 	}
 	walk(t, false)
 	return
+}
+
+// normText: a text is the same text as a string and as a []byte. The representation is folded away
+// so that a parser working on bytes is read like one working on strings: conversions between string
+// and []byte disappear, a function of package bytes is named like its twin in package strings, and a
+// package-level variable that is only ever its initialiser (a separator kept as []byte("\t")) is
+// replaced by that constant. A conversion of a rune or an integer to a string is kept.
+var textTwins = map[string]bool{"Split": true, "SplitN": true, "SplitAfter": true, "SplitAfterN": true, "Fields": true, "HasPrefix": true, "HasSuffix": true,
+	"Contains": true, "ContainsAny": true, "ContainsRune": true, "Index": true, "IndexByte": true, "IndexAny": true, "IndexRune": true, "LastIndex": true, "LastIndexByte": true,
+	"TrimSpace": true, "Trim": true, "TrimLeft": true, "TrimRight": true, "TrimPrefix": true, "TrimSuffix": true, "ToUpper": true, "ToLower": true, "Count": true,
+	"Join": true, "Repeat": true, "Replace": true, "ReplaceAll": true, "EqualFold": true, "Cut": true}
+
+func normText(t *Term) *Term {
+	if t == nil {
+		return nil
+	}
+	args := make([]*Term, len(t.Args))
+	changed := false
+	for i, a := range t.Args {
+		args[i] = normText(a)
+		if args[i] != a {
+			changed = true
+		}
+	}
+	switch {
+	case t.Op == "conv" && len(args) == 1 && (t.Name == "string" || t.Name == "[]byte" || t.Name == "[]uint8"):
+		textual := false
+		if v := t.Args[0].V; v != nil {
+			vt := v.Type().Underlying()
+			if p, isPtr := vt.(*types.Pointer); isPtr { // the term of a load may carry the address it loads from
+				vt = p.Elem().Underlying()
+			}
+			switch u := vt.(type) {
+			case *types.Basic:
+				textual = u.Info()&types.IsString != 0
+			case *types.Slice:
+				if b, ok := u.Elem().Underlying().(*types.Basic); ok && b.Kind() == types.Byte {
+					textual = true
+				}
+			}
+		} else {
+			switch args[0].Op {
+			case "param", "call", "index", "each", "slice", "field", "global":
+				textual = true
+			case "const":
+				textual = strings.HasPrefix(args[0].Name, `"`)
+			}
+		}
+		if textual {
+			return args[0]
+		}
+	case t.Op == "call" && strings.HasPrefix(t.Name, "bytes.") && textTwins[t.Name[len("bytes."):]]:
+		return &Term{Op: "call", Name: "strings." + t.Name[len("bytes."):], Args: args, V: t.V}
+	case t.Op == "call" && t.Name == "bytes.Equal" && len(args) == 2:
+		return &Term{Op: "binop", Name: "==", Args: args, V: t.V}
+	case t.Op == "global":
+		if it := globalInitTerm(t); it != nil {
+			if n := normText(it); n.Op == "const" {
+				return n
+			}
+		}
+	}
+	if !changed {
+		return t
+	}
+	return &Term{Op: t.Op, Name: t.Name, Args: args, V: t.V, Cyc: t.Cyc}
+}
+
+// normStr: normText on the written form of a term.
+func normStr(s string) string {
+	if t := parseTerm(s); t != nil {
+		return normText(t).String()
+	}
+	return s
 }
